@@ -161,6 +161,9 @@ class Parser:
                 self.eat(")")
                 return ("ppath", segs, subs)
             if len(segs) == 1 and not segs[0][0].isupper():
+                if self.at("@"):
+                    self.eat()
+                    return ("pat_at", segs[0], self.parse_pat())
                 return ("pid", segs[0])
             return ("ppath", segs, None)
         raise Unsupported(f"pattern starting with {v!r}")
@@ -204,7 +207,27 @@ class Parser:
             self.eat(";")
             return None
         if self.at("fn"):
-            raise Unsupported("nested fn item")
+            self.eat()
+            name = self.eat()[1]
+            if self.at("<"):
+                self.eat(); self._skip_generic()
+            self.eat("(")
+            params = []
+            while not self.at(")"):
+                if self.at("mut"):
+                    self.eat()
+                nm = self.eat()[1]
+                self.eat(":")
+                params.append((nm, self.parse_type(stop=(",", ")"))))
+                if self.at(","):
+                    self.eat()
+            self.eat(")")
+            ret = None
+            if self.at("->"):
+                self.eat(); ret = self.parse_type(stop=("{", "where"))
+            body = self.parse_block()
+            stmts.append(("fnitem", name, params, ret, body))
+            return None
         blocklike = self.peek()[1] in ("if", "match", "while", "for", "loop", "unsafe", "{") and self.peek()[0] in ("id", "op")
         e = self.parse_expr(stmt=True)
         if self.peek()[0] == "op" and self.peek()[1] in ASSIGN_OPS:
@@ -364,7 +387,8 @@ class Parser:
             elif self.at("("):
                 e = ("call", e, self.parse_args())
             elif self.at("?"):
-                raise Unsupported("? operator")
+                self.eat()
+                e = ("try", e)
             else:
                 return e
 
